@@ -20,6 +20,9 @@ enum Expect {
     Body(Vec<u8>),
     /// the exchange must fail (send or the first read)
     Fail,
+    /// a valid Content-Length far beyond what arrives: what is read is a prefix of these bytes and the
+    /// reading ends in an error, never in a clean end of body
+    Truncated(Vec<u8>),
     /// the statement does not decide this combination
     DontCare,
 }
@@ -51,7 +54,7 @@ fn cl_value(g: &mut G, n: usize) -> (String, bool, bool) {
     // (text, valid, debatable)
     match g.below(13) {
         // 1*DIGIT: leading zeros are digits too
-        0..=4 => (if n % 5 == 4 { format!("{:04}", n) } else { n.to_string() }, true, false),
+        0..=4 => (if n % 10 == 9 { format!("{:024}", n) } else if n % 5 == 4 { format!("{:04}", n) } else { n.to_string() }, true, false),
         5 => ("-1".into(), false, false),
         6 => ("".into(), false, false),
         7 => ((*g.pick(&["abc", "1x", "0x10", "1e3", "1.0", "١٢", "5\u{0}", "1\u{7f}0", "4\u{1}", "\u{8}7"])).to_string(), false, false),
@@ -126,7 +129,16 @@ fn gen(g: &mut G) -> Plan {
     } else {
         te
     };
-    let chunked = !te.is_empty();
+    // (no draw) a coding whose name merely resembles "chunked" is not chunked: with no Content-Length next to
+    // it the body runs to the end of the connection, as sent
+    let lookalike = te.len() == 1 && te[0].trim_matches(|c| c == ' ' || c == '\t').eq_ignore_ascii_case("chunked") && ncl == 0 && n % 9 == 4;
+    let te: Vec<String> = if lookalike {
+        g.probe("transfer-coding-that-resembles-chunked");
+        vec![["x-chunked", "xchunked", "chunked-x", "chunke", "X-Chunked", "chunkedd", "x_chunked", "un-chunked"][(n / 9) % 8].to_string()]
+    } else {
+        te
+    };
+    let chunked = !te.is_empty() && !lookalike;
     if chunked && ncl > 0 && cl_valid && !cl_debatable && cl_nums.len() == ncl && cl_nums.windows(2).all(|w| w[0] == w[1]) && n % 2 == 0 {
         // (no draw) a well-formed Content-Length next to chunked that says something else than the chunked
         // body holds - smaller, zero or larger: chunked wins, the number means nothing
@@ -137,6 +149,16 @@ fn gen(g: &mut G) -> Plan {
         g.probe("chunked-next-to-a-content-length-of-another-size");
     }
     let must_be_empty = method == "HEAD" || (100..200).contains(&status) || status == 204 || status == 304;
+    // (no draw) the largest lengths 64 bits can hold are lengths like any other: the body is that long, and a
+    // connection that closes after a few octets has cut it
+    let huge = !chunked && !must_be_empty && ncl > 0 && cl_valid && !cl_debatable && cl_agree && cl_nums.len() == ncl && n % 11 == 7;
+    if huge {
+        let m = [u64::MAX, u64::MAX - 1, 1u64 << 63, (1u64 << 32) + n as u64][n % 4];
+        for c in cl.iter_mut() {
+            *c = m.to_string();
+        }
+        g.probe("content-length-near-the-top-of-64-bits");
+    }
     let content_encoding_gzip = must_be_empty && g.chance(1, 5);
     let mut why = String::new();
     let (expect, framing) = if must_be_empty {
@@ -154,6 +176,9 @@ fn gen(g: &mut G) -> Plan {
         } else if !cl_valid || !cl_agree {
             why.push_str("invalid or disagreeing Content-Length => fail");
             (Expect::Fail, Framing::Length)
+        } else if huge {
+            why.push_str("Content-Length far beyond what arrives");
+            (Expect::Truncated(payload.clone()), Framing::Length)
         } else {
             why.push_str("Content-Length");
             (Expect::Body(payload.clone()), Framing::Length)
@@ -210,7 +235,7 @@ fn gen(g: &mut G) -> Plan {
         } else {
             vec![]
         };
-        let g2: &[u8] = if framing == Framing::Close { &[] } else { &garbage };
+        let g2: &[u8] = if framing == Framing::Close || huge { &[] } else { &garbage };
         httpref::encode_body(&mut wire, framing, &payload, &chunks, b"0", g2);
         if framing == Framing::Close || expect == Expect::DontCare {
             end = End::Fin;
@@ -324,6 +349,20 @@ pub fn scenario(g: &mut G, ctx: &RunCtx) -> RunReport {
                     )
                 }
             }
+            Expect::Truncated(want) => {
+                if let Some(e) = &o.send_err {
+                    violation(format!("valid-length-refused:{}", tag), format!("send() failed with {} for Content-Length {:?}", e, p.cl))
+                } else if !httpref::is_prefix(&o.output, want) {
+                    violation(format!("body-mismatch:{}", tag), format!("{} bytes read are not a prefix of the {} sent (Content-Length {:?})", o.output.len(), want.len(), p.cl))
+                } else if o.read_err.is_none() {
+                    violation(
+                        format!("cut-body-read-as-complete:{}", tag),
+                        format!("Content-Length {:?}, {} body bytes sent before the connection ended: read as a complete body of {} bytes", p.cl, want.len(), o.output.len()),
+                    )
+                } else {
+                    Verdict::Pass
+                }
+            }
             Expect::Empty => {
                 if let Some(e) = &o.send_err {
                     violation(format!("empty-body-case-failed:{}", tag), format!("send() failed with {} for {} {} (cl={:?} te={:?})", e, p.method, p.status, p.cl, p.te))
@@ -382,6 +421,7 @@ pub fn scenario(g: &mut G, ctx: &RunCtx) -> RunReport {
             Expect::Empty => "empty",
             Expect::Body(_) => "body",
             Expect::Fail => "fail",
+            Expect::Truncated(_) => "truncated",
             Expect::DontCare => "dc",
         },
         p.use_bytes,
@@ -409,6 +449,7 @@ pub fn scenario(g: &mut G, ctx: &RunCtx) -> RunReport {
                     Expect::Empty => "empty".to_string(),
                     Expect::Body(b) => format!("body {}B", b.len()),
                     Expect::Fail => "fail".into(),
+                    Expect::Truncated(b) => format!("cut after {}B", b.len()),
                     Expect::DontCare => "dont-care".into(),
                 },
                 p.why,
